@@ -9,6 +9,7 @@ CONSTANTS
     MaxMid = 2
     FamsFull <- AllFams
     FamsRep <- RepFams
+    FullMid = 1
     FullDepth = 1
 INVARIANT Emit
 INVARIANT HasControl
